@@ -755,6 +755,65 @@ pub fn gen_auto_follow(r: &mut crate::util::Rng, tag: &str) -> String {
     format!("{} {}", tag, cmds.join(" ; "))
 }
 
+/// A service with EXPLICIT addresses (not auto-addressed) and an interface the daemon learns about
+/// only after the registration - found by the periodic check, or enabled after having been
+/// disabled - whose subnet holds one of the service's addresses.  The service was never probed
+/// or announced there; `unregister` (and a query) must not speak for it there.  Tag "sim C09".
+pub fn gen_late_interface_unregister(r: &mut crate::util::Rng) -> String {
+    use crate::util::hex;
+    let hx = |s: &str| hex(s.as_bytes());
+    let eth0 = format!("{} 2 192.168.1.10 24", hx("eth0"));
+    let eth1 = format!("{} 3 10.0.1.10 24", hx("eth1"));
+    let by_check = r.chance(1, 2);
+    let mut cmds: Vec<String> = vec![];
+    if by_check {
+        cmds.push(format!("daemon 1 {}", eth0));
+    } else {
+        cmds.push(format!("daemon 2 {} {}", eth0, eth1));
+    }
+    let ipint = *r.pick(&[1u64, 1, 5]);
+    cmds.push(format!("ipint 0 {}", ipint));
+    if r.chance(3, 4) {
+        cmds.push("monitor 0 900".to_string());
+    }
+    let mut now = 1_000_000u64;
+    cmds.push(format!("run {}", now));
+    if !by_check {
+        cmds.push(format!("disable 0 name {}", hx("eth1")));
+        cmds.push(format!("run {}", now));
+    }
+    cmds.push(format!("jit 0 {}", r.pick(&[0u64, 100, 249])));
+    cmds.push(format!(
+        "register 0 {} {} {} 80 2 192.168.1.20 10.0.1.5 0 1 0",
+        hx("_x._udp.local."),
+        hx("late"),
+        hx("latehost.local.")
+    ));
+    now += 6000;
+    cmds.push(format!("run {}", now));
+    if by_check {
+        cmds.push(format!("ifaces 0 2 {} {}", eth0, eth1));
+    } else {
+        cmds.push(format!("enable 0 name {}", hx("eth1")));
+    }
+    now += ipint * 1000 + *r.pick(&[1500u64, 4000]);
+    cmds.push(format!("run {}", now));
+    if r.chance(1, 2) {
+        // a question on the new link
+        let d = mdns_sd::verif::parser::MsgDesc { questions: vec![("_x._udp.local.".to_string(), 12)], ..Default::default() };
+        let q = mdns_sd::verif::parser::encode(&d).and_then(|v| v.into_iter().next()).unwrap_or_default();
+        cmds.push(format!("inject 0 3 1 10.0.1.50 5353 {}", hex(&q)));
+        now += 500;
+        cmds.push(format!("run {}", now));
+    }
+    cmds.push(format!("unregister 0 1 {}", hx("late._x._udp.local.")));
+    now += *r.pick(&[50u64, 1000]);
+    cmds.push(format!("run {}", now));
+    now += 2000;
+    cmds.push(format!("run {}", now));
+    format!("sim C09 {}", cmds.join(" ; "))
+}
+
 pub fn generate_daemon(r: &mut crate::util::Rng, tier: &str, emit: &mut dyn FnMut(String)) {
     let n = if tier == "thorough" { 3000 } else { 300 };
     for k in 0..n {
